@@ -94,20 +94,15 @@ def _kinds_pre(ks, n: int) -> bool:
 
 
 def _k1_kinds(c, k0, k1, k2):
-    """the concrete outcomes of the cases; a `first` in the case fixes the outcome of the first case (k0 is then 0)"""
+    """the concrete outcomes of the cases, in processing order"""
     n = L.n_cases_of(c['layout'])
-    ks = [ob.concrete_int(k, 0, L.N_KINDS - 1) for k in (k0, k1, k2)[:n]]
-    if 'first' in c:
-        ks[0] = c['first']
-    return ks
+    return [ob.concrete_int(k, 0, L.N_KINDS - 1) for k in (k0, k1, k2)[:n]]
 
 
 def _pre_k1(k0: int, k1: int, k2: int) -> bool:
     c = ob.case()
     n = L.n_cases_of(c['layout'])
     if not _kinds_pre((k0, k1, k2), n):
-        return False
-    if 'first' in c and k0 != 0:
         return False
     if 'k0_range' in c and not (c['k0_range'][0] <= k0 < c['k0_range'][1]):
         return False
@@ -177,7 +172,7 @@ def _layout_text(layout) -> str:
     return s
 
 
-def _k1_ob(name, layout, junit, timeout, first=None, k0_range=None):
+def _k1_ob(name, layout, junit, timeout, k0_range=None):
     n = L.n_cases_of(layout)
     c = dict(layout=layout, junit=junit)
     what = 'every assignment of the 14 outcomes (%s) to its %d case(s)' % (', '.join(L.KINDS), n)
@@ -185,10 +180,6 @@ def _k1_ob(name, layout, junit, timeout, first=None, k0_range=None):
         c['k0_range'] = k0_range
         name += ':k0=%d..%d' % (k0_range[0], k0_range[1] - 1)
         what += ' in which the first case processed ends with one of ' + ', '.join(L.KINDS[k0_range[0]:k0_range[1]])
-    if first is not None:
-        c['first'] = first
-        name += ':first=%d' % first
-        what += ' in which the first case processed ends with ' + L.KINDS[first]
     return Ob(
         name='K1:%s:%s' % ('junit' if junit else 'progress', name),
         fn='k1_junit' if junit else 'k1_progress', case=c, kernel='K1',
@@ -215,8 +206,10 @@ def _k1_obligations(tier: str) -> List[Ob]:
                 obs.append(_k1_ob(name, layout, junit, 300))
         if tier == 'thorough':
             for name, layout in LAYOUTS_N3_THOROUGH:
-                for first in range(L.N_KINDS):
-                    obs.append(_k1_ob(name, layout, junit, 300 * f, first=first))
+                # split by the outcome of the first case, two outcomes per obligation (no obligation lies completely
+                # inside the region junit-act-syntax-error)
+                for lo in range(0, L.N_KINDS, 2):
+                    obs.append(_k1_ob(name, layout, junit, 500 * f, k0_range=(lo, lo + 2)))
     two = LAYOUTS_N2_QUICK[0][1]
     obs.append(Ob(name='K1:progress:seeded-oracle-error', fn='k1_progress',
                   case=dict(layout=two, junit=False, oracle_bug=True), kernel='K1', expect=ob.REFUTE,
@@ -532,6 +525,23 @@ def _idx(cat, *lines):
     return [cat.index(x) for x in lines]
 
 
+def _chunks(cat):
+    """index lists that split a catalogue into one obligation per line - except that the line that lies inside the
+    region reference-through-regular-file shares an obligation with its predecessor (no obligation may lie completely
+    inside a region)"""
+    out = []
+    for i, line in enumerate(cat):
+        if line == NOTADIR_LINE and out:
+            out[-1].append(i)
+        else:
+            out.append([i])
+    return out
+
+
+def _lines_text(cat, idxs):
+    return ' or '.join(repr(cat[i]) for i in idxs)
+
+
 def _k2_obligations(tier: str) -> List[Ob]:
     obs = []
     all_sl = 'every line of the catalogue SL = %r' % (SL,)
@@ -559,17 +569,19 @@ def _k2_obligations(tier: str) -> List[Ob]:
                           xs=_idx(CL, '1.case', '*.case', '*[23].case', 'nope.case', 'd/x.case'),
                           ys=_idx(CL, '2.case', '*.case', '**/*.case', '"1.case"'), ng=1))
     else:
-        for i, line in enumerate(SL):
+        for xs in _chunks(SL):
+            i, line = xs[0], _lines_text(SL, xs)
             obs.append(_k2_ob('root-suites-x2:%d' % i, 'root-suites-x2', 2 * T,
-                              'root suite whose [suites] section holds the line %r and then one more line: %s; %s' % (
-                                  line, all_sl, order2), xs=[i]))
+                              'root suite whose [suites] section holds the line %s and then one more line: %s; %s' % (
+                                  line, all_sl, order2), xs=xs))
             obs.append(_k2_ob('sub-suites:%d' % i, 'sub-suites', T,
-                              'root lists a.suite, b.suite; [suites] of a.suite holds the line %r, that of b.suite one line: %s' % (
-                                  line, all_sl), xs=[i]))
-        for i, line in enumerate(CL):
+                              'root lists a.suite, b.suite; [suites] of a.suite holds the line %s, that of b.suite one line: %s' % (
+                                  line, all_sl), xs=xs))
+        for xs in _chunks(CL):
+            i, line = xs[0], _lines_text(CL, xs)
             obs.append(_k2_ob('root-cases:%d' % i, 'root-cases', 2 * T,
-                              'root suite (one sub-suite) whose [cases] section holds the line %r and then one more line: %s; %s' % (
-                                  line, all_cl, order2), xs=[i]))
+                              'root suite (one sub-suite) whose [cases] section holds the line %s and then one more line: %s; %s' % (
+                                  line, all_cl, order2), xs=xs))
         for j in range(4):
             obs.append(_k2_ob('sub-cases:%d' % j, 'sub-cases', 2 * T,
                               'sub-suite whose [cases] section holds one line: %s; the root\'s holds %r; %s' % (
@@ -631,10 +643,12 @@ def _k3_obligations(tier: str) -> List[Ob]:
                                   'r.suite [PASS case, PASS case] listing s.suite [one real case file for each of: %s]' % (
                                       ', '.join(REAL_CASES[i][0] for i in k0s)), junit, k0s=k0s, k1s=[0]))
         else:
-            for b, cb in enumerate(REAL_CASES):
-                obs.append(_k3_ob('%d%s' % (b, j), 900,
-                                  'r.suite [%s case, PASS case] listing s.suite [one real case file for each of: %s]' % (cb[0], names),
-                                  junit, k1s=[b]))
+            for b in range(0, len(REAL_CASES), 2):
+                # two outcomes of the root's case per obligation (no obligation lies completely inside a region)
+                k1s = [b, b + 1]
+                obs.append(_k3_ob('%d-%d%s' % (b, b + 1, j), 1200,
+                                  'r.suite [%s case, PASS case] listing s.suite [one real case file for each of: %s]' % (
+                                      ' or '.join(REAL_CASES[i][0] for i in k1s), names), junit, k1s=k1s))
     obs.append(Ob(name='K3:seeded-oracle-error', fn='k3_whole_program', case=dict(junit=False, oracle_bug=True, k1s=[1]),
                   kernel='K3', expect=ob.REFUTE, timeout=600, selector=True, real=REAL_K3,
                   bound='seeded oracle error: the listing suite expected before its sub-suites',
